@@ -153,7 +153,7 @@ impl Prop for C17Prop {
     fn streams(&self, tier: Tier) -> Vec<Stream> {
         let q = tier == Tier::Quick;
         vec![
-            Stream::random("enc", if q { 150 } else { 2500 }, 200),
+            Stream::random("enc", if q { 300 } else { 4000 }, 200),
             Stream::random("malformed", if q { 20 } else { 200 }, 32),
             Stream::random("mixed", if q { 15 } else { 200 }, 200),
         ]
